@@ -1111,6 +1111,8 @@ def c13_tasks(tier):
         sc = mk_scen(bb, dict(size=1, max_nodes=None), actors=actors, level=2, free_at_poll=True)
         sc["exit_codes"] = {"a": [1, 0]}
         for tag, victims, kinds in (("cmd", ["resub"], ["squeue", "sbatch"]), ("rounds", ["n", "rec2"], ["write", "squeue"])):
+            if tag == "cmd" and g != "chain2" and tier == "quick":
+                continue
             tasks.append(dict(id=f"resub-fault-{g}-{tag}", scen=sc, oracles=["Obs", "C13"], budget=(0, 1),
                               fault=dict(plan="c11", victims=victims, kinds=kinds, from_epoch=0 if tag == "cmd" else 1, write_paths=["results.json"]), cls="resubmit+fault"))
     # cancel, then resubmit the missing jobs
